@@ -268,6 +268,14 @@ X2Clause(st) ==
           ELSE IF Len(dp.seq) > Len(ch) \/ \E j \in DOMAIN dp.seq : dp.seq[j] # ch[j] THEN "X2:display_order"
           ELSE ""
 
+(* an argument that is none of the world's values reached a method or a condition (class 0 = unknown to the *)
+(* harness): the value the caller passed was replaced on the way                                            *)
+ForeignArg(st) ==
+  \/ \E q \in DOMAIN st.obs.predlog : st.obs.predlog[q].a.c = 0
+  \/ \E e \in DOMAIN st.obs.entered :
+        \/ \E j \in DOMAIN st.obs.entered[e].call.pos : st.obs.entered[e].call.pos[j].c = 0
+        \/ \E j \in DOMAIN st.obs.entered[e].call.kwa : st.obs.entered[e].call.kwa[j].c = 0
+
 StepClause(st) ==
   LET c1 == IF "C01" \in Props THEN C01Clause(st) ELSE ""
       c2 == IF "C02" \in Props THEN C02Clause(st) ELSE ""
@@ -283,7 +291,8 @@ StepClause(st) ==
       c5n == IF "C05N" \in Props THEN PlainClause(st) ELSE ""
       c8n == IF "C08N" \in Props THEN PlainClause(st) ELSE ""
       c16n == IF "C16N" \in Props THEN PlainClause(st) ELSE ""
-      c10 == IF "C10" \in Props THEN C10Clause(st)
+      c10 == IF ("C10" \in Props \/ "C10G" \in Props) /\ ForeignArg(st) THEN "arguments_intact"
+             ELSE IF "C10" \in Props THEN C10Clause(st)
              ELSE IF "C10G" \in Props THEN
                   (IF \E q \in DOMAIN st.obs.predlog : ~BoundOK(st.obs.predlog[q].t, st.obs.predlog[q].a)
                    THEN "bound_guard"
@@ -398,7 +407,7 @@ Consume ==
          \* it needs at least two supplied positions there (the cross-position form of the artefact)
          \* the level artefact is repaired; the only signature left is the rank artefact of dependent methods (C10)
          \* ... and only when the code did exactly what the Impl layer of value dispatch predicts
-         ks == \/ "C10" \in Props /\ DepOnly(MOf(st)) /\ KF_pull_rank(W, MOf(st), st.call) /\ (c = "" \/ ImplValueConsistent(st))
+         ks == \/ "C10" \in Props /\ DepOnly(MOf(st)) /\ KF_pull_rank(W, MOf(st), st.call) /\ (c = "" \/ (~ForeignArg(st) /\ ImplValueConsistent(st)))
                \/ "C06" \in Props /\ ~co /\ DepOnly(MOf(st)) /\ KF_pull_rank(W, MOf(st), st.call)
      IN
        /\ bad' = LET b1 == IF c # ""
